@@ -83,7 +83,7 @@ func returnsOnlyFalse(b *ssa.BasicBlock) bool {
 			if !ok || len(ret.Results) == 0 {
 				return false
 			}
-			k, ok := ret.Results[0].(*ssa.Const)
+			k, ok := core.ResultValue(ret, 0).(*ssa.Const)
 			return ok && k.Value != nil && k.Value.ExactString() == "false"
 		}
 		for _, s := range b.Succs {
